@@ -601,18 +601,17 @@ Proof.
       * apply (refs_nonneg_active s q Q I Hq Er).
       * intros q1 N. unfold holds; cbn [snd]. now apply Nat.eqb_neq.
       * unfold holds; cbn [snd]. rewrite Nat.eqb_refl. cbn. lia.
+      * cbn; rewrite ?Hq; exact Ok.
   - (* PGet *)
     destruct g as [c|].
     + destruct (mem c (st_pool s)) eqn:Ec; [|exact I].
       apply (A_pstep s _ i k PGet (PHave c) I Hp); simp_st; try reflexivity; auto.
-      * exact Logic.I.
       * intros q0 Q0. apply (a_act s I).
       * intros c0. pose proof (a_own s I c0) as O. unfold chown in O.
         pose proof (count_remove1 c c0 _ Ec) as R.
         pose proof (count_upd' (having c0) _ i (k, PHave c) _ (c0 =? c) false Hp eq_refl eq_refl) as C.
         cbn [b2n] in C. lia.
     + apply (A_pstep s _ i k PGet (PHave (length (st_chans s))) I Hp); simp_st; try reflexivity; auto.
-      * exact Logic.I.
       * intros q0 Q0. apply (a_act s I).
       * intros c0. pose proof (a_own s I c0) as O. unfold chown in O.
         pose proof (count_upd' (having c0) _ i (k, PHave (length (st_chans s))) _ (c0 =? length (st_chans s)) false Hp eq_refl eq_refl) as C.
@@ -635,12 +634,12 @@ Proof.
       * apply (refs_nonneg_active s q Q I Hq Er).
       * intros q1 N. unfold holds; cbn [snd]. now apply Nat.eqb_neq.
       * unfold holds; cbn [snd]. rewrite Nat.eqb_refl. cbn. lia.
+      * cbn; rewrite ?Hq; exact Ok.
   - (* PCad *)
     destruct Ok as (Q & Hq & Hk & Hi).
     destruct (opt_is (st_map s k) q) eqn:Eo.
     + apply opt_is_true in Eo.
       apply (A_pstep s _ i k (PCad q) PGet I Hp); simp_st; try reflexivity; auto.
-      * exact Logic.I.
       * intros k0 q0. unfold map_set. destruct (k0 =? k); [discriminate|auto].
       * intros q0 Q0 H0 A0. pose proof (a_act s I q0 Q0 H0 A0) as M.
         rewrite map_set_other; [assumption|]. intros E. rewrite E in M.
@@ -657,13 +656,14 @@ Proof.
       destruct (q_pc Q); cbn in C; try lia. reflexivity.
     + intros q1 N. unfold holds; cbn [snd]. now apply Nat.eqb_neq.
     + unfold holds; cbn [snd]. rewrite Nat.eqb_refl. cbn. lia.
+    + cbn; rewrite ?Hq; exact Ok.
   - (* PSpawn *)
     destruct (nth_error (st_qs s) q) as [Q|] eqn:Hq; [|exact I].
     apply (A_spawn s q Q i k I Hq Hp).
   - (* PEnq *)
     destruct (nth_error (st_qs s) q) as [Q|] eqn:Hq; [|exact I].
     destruct (q_mode Q); [|destruct (length (chan s (q_ch Q)) <? cap)]; prod_frame s I Hp;
-      try (apply (map_upd_same qv _ _ _ _ Hq); reflexivity); exact Ok.
+      try (apply (map_upd_same qv _ _ _ _ Hq); reflexivity); cbn; rewrite ?Hq; exact Ok.
   - (* PRel *)
     destruct (nth_error (st_qs s) q) as [Q|] eqn:Hq; [|exact I].
     apply (A_refs_step s q Q i k (PRel q) PDone); auto.
@@ -691,3 +691,739 @@ Proof.
     apply count_zero. intros i x H. rewrite nth_error_map in H. destruct (nth_error keys i); cbn in H; [|discriminate].
     inversion H. reflexivity.
 Qed.
+
+(* ------------------------------------------------------------------------------------------ *)
+(* part B: emptiness (uses the race-free side condition at the claiming CAS)                    *)
+(* ------------------------------------------------------------------------------------------ *)
+Record InvB (s : state) : Prop := mkB {
+  b_chan : forall c, chan s c = [] \/
+             exists q Q, nth_error (st_qs s) q = Some Q /\ active (q_pc Q) = true /\ q_ch Q = c;
+  b_over : forall q Q, nth_error (st_qs s) q = Some Q -> active (q_pc Q) = false -> q_over Q = [];
+  b_mode : forall q Q, nth_error (st_qs s) q = Some Q -> q_mode Q = false -> q_over Q = [] }.
+
+Lemma chan_set_chan_other s c0 l c : c <> c0 -> chan (set_chan s c0 l) c = chan s c.
+Proof.
+  intros N. unfold chan, set_chan, set_chans; cbn [st_chans].
+  destruct (nth_error (st_chans s) c) as [x|] eqn:E.
+  - rewrite (nth_nth_error _ _ _ _ E). apply nth_nth_error. now rewrite nth_upd_other.
+  - apply nth_error_None in E. rewrite !nth_overflow; auto. now rewrite upd_length.
+Qed.
+
+Lemma chan_set_chan_same s c0 l : c0 < length (st_chans s) -> chan (set_chan s c0 l) c0 = l.
+Proof.
+  intros H. unfold chan, set_chan, set_chans; cbn [st_chans]. apply nth_nth_error.
+  destruct (nth_error (st_chans s) c0) eqn:E; [eapply nth_upd_same; eauto|].
+  apply nth_error_None in E. lia.
+Qed.
+
+Lemma chan_new s c : nth c (st_chans s ++ [[]]) [] = chan s c.
+Proof.
+  unfold chan. destruct (Nat.lt_ge_cases c (length (st_chans s))).
+  - now rewrite app_nth1.
+  - rewrite app_nth2 by auto. rewrite (nth_overflow (st_chans s)) by auto.
+    destruct (c - length (st_chans s)) as [|[|n]]; reflexivity.
+Qed.
+
+Lemma B_same s s' : st_qs s' = st_qs s -> st_chans s' = st_chans s -> InvB s -> InvB s'.
+Proof.
+  intros EQ EC [B1 B2 B3]. constructor; unfold chan; rewrite ?EQ, ?EC; auto.
+Qed.
+
+Lemma B_qstep s s' q Q Q' :
+  InvB s -> nth_error (st_qs s) q = Some Q -> st_qs s' = upd (st_qs s) q Q' -> q_ch Q' = q_ch Q ->
+  (forall c, c <> q_ch Q -> chan s' c = chan s c) ->
+  ((active (q_pc Q') = active (q_pc Q) /\ chan s' (q_ch Q) = chan s (q_ch Q)) \/ chan s' (q_ch Q) = [] \/ active (q_pc Q') = true) ->
+  (active (q_pc Q') = false -> q_over Q' = []) ->
+  (q_mode Q' = false -> q_over Q' = []) ->
+  InvB s'.
+Proof.
+  intros [B1 B2 B3] Hq EQ Hc H2 H3 H4 H5. constructor; rewrite ?EQ.
+  - intros c. destruct (Nat.eq_dec c (q_ch Q)) as [->|N].
+    + destruct H3 as [[Ea Ec]|[E|Ea]].
+      * rewrite Ec. destruct (B1 (q_ch Q)) as [E|(q0 & Q0 & H0 & A0 & C0)]; [now left|right].
+        destruct (Nat.eq_dec q0 q) as [->|Nq].
+        -- exists q, Q'. rewrite (nth_upd_same _ _ _ _ Hq). assert (Q0 = Q) by congruence. subst. repeat split; congruence.
+        -- exists q0, Q0. rewrite nth_upd_other by auto. auto.
+      * now left.
+      * right. exists q, Q'. rewrite (nth_upd_same _ _ _ _ Hq). auto.
+    + rewrite (H2 c N). destruct (B1 c) as [E|(q0 & Q0 & H0 & A0 & C0)]; [now left|right].
+      exists q0, Q0. rewrite nth_upd_other; [auto|]. intros ->. assert (Q0 = Q) by congruence. subst. congruence.
+  - intros q0 Q0 H A0. updc H; [auto|apply (B2 q0 Q0 H A0)].
+  - intros q0 Q0 H M0. updc H; [auto|apply (B3 q0 Q0 H M0)].
+Qed.
+
+(* derived: a channel with an active owner has no other holder *)
+Lemma own_active s q Q :
+  InvA s -> nth_error (st_qs s) q = Some Q -> live (q_pc Q) = true ->
+  q_ch Q < length (st_chans s) /\ count (qowns (q_ch Q)) (st_qs s) = 1
+  /\ count (Nat.eqb (q_ch Q)) (st_pool s) = 0 /\ count (having (q_ch Q)) (st_prods s) = 0.
+Proof.
+  intros I Hq L. pose proof (a_own s I (q_ch Q)) as O. unfold chown in O.
+  assert (G : 1 <= count (qowns (q_ch Q)) (st_qs s)).
+  { apply (count_ge1 _ _ q Q Hq). unfold qowns. now rewrite L, Nat.eqb_refl. }
+  destruct (Nat.ltb_spec (q_ch Q) (length (st_chans s))); cbn [b2n] in O; lia.
+Qed.
+
+Lemma live_distinct s q Q q' Q' :
+  InvA s -> nth_error (st_qs s) q = Some Q -> nth_error (st_qs s) q' = Some Q' ->
+  live (q_pc Q) = true -> live (q_pc Q') = true -> q_ch Q = q_ch Q' -> q = q'.
+Proof.
+  intros I Hq Hq' L L' E. destruct (Nat.eq_dec q q') as [|N]; [assumption|exfalso].
+  destruct (own_active s q Q I Hq L) as (_ & C & _).
+  assert (2 <= count (qowns (q_ch Q)) (st_qs s)); [|lia].
+  apply (count_ge2 _ _ q q' Q Q' Hq Hq' N); unfold qowns.
+  - now rewrite L, Nat.eqb_refl.
+  - now rewrite L', E, Nat.eqb_refl.
+Qed.
+
+Lemma active_live pc : active pc = true -> live pc = true.
+Proof. destruct pc; cbn; congruence. Qed.
+
+Lemma pool_chan_empty s c : InvA s -> InvB s -> In c (st_pool s) -> chan s c = [].
+Proof.
+  intros I B H. destruct (b_chan s B c) as [E|(q & Q & Hq & A & C)]; [assumption|exfalso].
+  destruct (own_active s q Q I Hq (active_live _ A)) as (_ & _ & P & _).
+  rewrite C in P. pose proof (count_in c _ H). lia.
+Qed.
+
+Lemma have_chan_empty s i k c : InvA s -> InvB s -> nth_error (st_prods s) i = Some (k, PHave c) -> chan s c = [].
+Proof.
+  intros I B H. destruct (b_chan s B c) as [E|(q & Q & Hq & A & C)]; [assumption|exfalso].
+  destruct (own_active s q Q I Hq (active_live _ A)) as (_ & _ & _ & P).
+  rewrite C in P. assert (1 <= count (having c) (st_prods s)); [|lia].
+  apply (count_ge1 _ _ i _ H). unfold having; cbn [snd]. apply Nat.eqb_refl.
+Qed.
+
+Lemma claimed_chan_empty s q Q :
+  InvA s -> InvB s -> nth_error (st_qs s) q = Some Q -> active (q_pc Q) = false -> live (q_pc Q) = true ->
+  chan s (q_ch Q) = [].
+Proof.
+  intros I B Hq A L. destruct (b_chan s B (q_ch Q)) as [E|(q' & Q' & Hq' & A' & C)]; [assumption|exfalso].
+  assert (q' = q) by (apply (live_distinct s q' Q' q Q I Hq' Hq (active_live _ A') L C)).
+  subst. assert (Q' = Q) by congruence. subst. congruence.
+Qed.
+
+Ltac b_triv s B Hq Hpc :=
+  eapply (B_qstep s _ _ _ _ B Hq);
+  [simp_st; reflexivity | reflexivity | intros; reflexivity
+  | left; simp_q; rewrite ?Hpc; split; reflexivity
+  | simp_q; first [ intros HH; discriminate HH | intros _; apply (b_over s B _ _ Hq); rewrite Hpc; reflexivity ]
+  | simp_q; try apply (b_mode s B _ _ Hq); auto ].
+
+Lemma B_step_conv s q c :
+  InvA s -> InvB s -> claim_hit s (LConv q c) = false -> InvB (step_conv s q c).
+Proof.
+  intros I B CH. unfold step_conv. cbn [claim_hit] in CH.
+  destruct (nth_error (st_qs s) q) as [Q|] eqn:Hq; [|exact B].
+  assert (Hpop : forall t r pc, active pc = true ->
+            InvB (add_log (set_q (set_chan s (q_ch Q) r) q (q_set_pc Q pc)) t)).
+  { intros t r pc Ha. eapply (B_qstep s _ _ _ _ B Hq).
+    - simp_st. reflexivity.
+    - reflexivity.
+    - intros c0 N. apply (chan_set_chan_other s (q_ch Q) r c0 N).
+    - right. right. exact Ha.
+    - simp_q. rewrite Ha. discriminate.
+    - simp_q. apply (b_mode s B _ _ Hq). }
+  destruct (q_pc Q) eqn:Hpc; try exact B.
+  - (* CTop *)
+    destruct (chan s (q_ch Q)) as [|t r]; [b_triv s B Hq Hpc|apply Hpop; reflexivity].
+  - (* CPopOver *)
+    destruct (if pop_overflow_rechecks_channel then chan s (q_ch Q) else []) as [|t0 r0]; [|apply Hpop; reflexivity].
+    destruct (q_over Q) as [|t r] eqn:Ho.
+    + eapply (B_qstep s _ _ _ _ B Hq); [simp_st; reflexivity|reflexivity|intros; reflexivity| | |]; simp_q; auto.
+    + eapply (B_qstep s _ _ _ _ B Hq); [simp_st; reflexivity|reflexivity|intros; reflexivity| | |]; simp_q.
+      * right. right. reflexivity.
+      * discriminate.
+      * destruct r; [reflexivity|]. intros M. pose proof (b_mode s B _ _ Hq M). congruence.
+  - (* CRun *) b_triv s B Hq Hpc.
+  - (* CWait *)
+    destruct c; try exact B.
+    + destruct (chan s (q_ch Q)) as [|t r]; [exact B|apply Hpop; reflexivity].
+    + destruct (_ || _ || _); [exact B|b_triv s B Hq Hpc].
+    + b_triv s B Hq Hpc.
+  - (* CChecked *)
+    destruct (q_refs Q =? 0)%Z eqn:Er; [|b_triv s B Hq Hpc].
+    cbn [andb] in CH. apply orb_false_elim in CH. destruct CH as [C1 C2].
+    assert (E1 : chan s (q_ch Q) = []) by (destruct (chan s (q_ch Q)); [reflexivity|discriminate]).
+    assert (E2 : q_over Q = []) by (destruct (q_over Q); [reflexivity|discriminate]).
+    eapply (B_qstep s _ _ _ _ B Hq); [simp_st; reflexivity|reflexivity|intros; reflexivity| | |]; simp_q; auto.
+  - (* CClaimed *)
+    destruct (opt_is (st_map s (q_key Q)) q); b_triv s B Hq Hpc.
+  - (* CDeleted *) b_triv s B Hq Hpc.
+  - (* CDelFailed *)
+    assert (G : st_map s (q_key Q) <> Some q) by (apply (a_gone s I q Q Hq); now rewrite Hpc).
+    destruct (opt_is (st_map s (q_key Q)) q) eqn:Eo; [apply opt_is_true in Eo; contradiction|].
+    b_triv s B Hq Hpc.
+Qed.
+
+Ltac b_refs s B Hq :=
+  eapply (B_qstep s _ _ _ _ B Hq);
+  [simp_st; reflexivity | reflexivity | intros; reflexivity
+  | left; split; reflexivity
+  | simp_q; apply (b_over s B _ _ Hq)
+  | simp_q; apply (b_mode s B _ _ Hq) ].
+
+Lemma B_step_prod cap s i g : InvA s -> InvB s -> InvB (step_prod cap s i g).
+Proof.
+  intros I B. unfold step_prod.
+  destruct (nth_error (st_prods s) i) as [[k pc]|] eqn:Hp; [|exact B].
+  destruct pc.
+  - destruct (st_map s k); apply (B_same s); auto.
+  - destruct (nth_error (st_qs s) q) as [Q|] eqn:Hq; [|exact B].
+    destruct (q_refs Q <? 0)%Z; [apply (B_same s); auto|b_refs s B Hq].
+  - destruct g as [c|].
+    + destruct (mem c (st_pool s)); [apply (B_same s); auto|exact B].
+    + destruct B as [B1 B2 B3]. constructor; simp_st; auto.
+      intros c. unfold chan; simp_st. rewrite chan_new. apply B1.
+  - destruct (st_map s k); [apply (B_same s); auto|].
+    destruct B as [B1 B2 B3]. constructor; simp_st.
+    + intros c0. destruct (B1 c0) as [E|(q0 & Q0 & H0 & A0 & C0)]; [now left|right].
+      exists q0, Q0. split; [now apply nth_error_app_l|auto].
+    + intros q0 Q0 H A0. apply nth_error_snoc in H. destruct H as [H|[-> ->]]; [eauto|reflexivity].
+    + intros q0 Q0 H A0. apply nth_error_snoc in H. destruct H as [H|[-> ->]]; [eauto|reflexivity].
+  - destruct (nth_error (st_qs s) q) as [Q|] eqn:Hq; [|exact B].
+    destruct (q_refs Q <? 0)%Z; [apply (B_same s); auto|b_refs s B Hq].
+  - destruct (opt_is (st_map s k) q); apply (B_same s); auto.
+  - destruct (nth_error (st_qs s) q) as [Q|] eqn:Hq; [|exact B]. b_refs s B Hq.
+  - destruct (nth_error (st_qs s) q) as [Q|] eqn:Hq; [|exact B].
+    eapply (B_qstep s _ _ _ _ B Hq); [simp_st; reflexivity|reflexivity|intros; reflexivity| | |]; simp_q.
+    + right. right. reflexivity.
+    + discriminate.
+    + apply (b_mode s B _ _ Hq).
+  - (* PEnq *)
+    destruct (nth_error (st_qs s) q) as [Q|] eqn:Hq; [|exact B].
+    assert (Ha : active (q_pc Q) = true).
+    { apply (holder_active s q Q i k (PEnq q) I Hq Hp). unfold holds; cbn [snd]. apply Nat.eqb_refl. }
+    assert (Hov : InvB (set_ppc (add_log (set_q s q (q_set_over Q (q_over Q ++ [i]) true)) (EAccept k i)) i k (PRel q))).
+    { eapply (B_qstep s _ _ _ _ B Hq); [simp_st; reflexivity|reflexivity|intros; reflexivity| | |]; simp_q.
+      - left. split; reflexivity.
+      - rewrite Ha. discriminate.
+      - discriminate. }
+    destruct (q_mode Q); [exact Hov|]. destruct (length (chan s (q_ch Q)) <? cap); [|exact Hov].
+    eapply (B_qstep s _ q Q Q B Hq).
+    + simp_st. symmetry. now apply upd_same.
+    + reflexivity.
+    + intros c0 N. apply (chan_set_chan_other s (q_ch Q) _ c0 N).
+    + right. right. exact Ha.
+    + apply (b_over s B _ _ Hq).
+    + apply (b_mode s B _ _ Hq).
+  - destruct (nth_error (st_qs s) q) as [Q|] eqn:Hq; [|exact B]. b_refs s B Hq.
+  - exact B.
+Qed.
+
+Lemma B_init keys : InvB (init keys).
+Proof.
+  constructor; cbn.
+  - intros c. left. unfold chan; cbn. destruct c; reflexivity.
+  - intros [|q] Q H; discriminate.
+  - intros [|q] Q H; discriminate.
+Qed.
+
+(* ------------------------------------------------------------------------------------------ *)
+(* part C: order                                                                               *)
+(* ------------------------------------------------------------------------------------------ *)
+Definition pendk (k : nat) (l : list (nat * nat)) : list nat := map snd (filter (fun p => fst p =? k) l).
+Definition pcof (s : state) (t : nat) : ppc :=
+  match nth_error (st_prods s) t with Some (_, pc) => pc | None => PDone end.
+Definition relsafe (pc : ppc) : bool := match pc with PRel _ | PDone => true | _ => false end.
+Definition buf (s : state) (k : nat) : list nat :=
+  match st_map s k with
+  | Some q => match nth_error (st_qs s) q with
+              | Some Q => if active (q_pc Q) then chan s (q_ch Q) ++ q_over Q else []
+              | None => []
+              end
+  | None => []
+  end.
+Definition SC (s : state) : scan := scan_log (st_log s).
+
+Lemma scan_log_snoc l e : scan_log (l ++ [e]) = scan_step (scan_log l) e.
+Proof. unfold scan_log. rewrite fold_left_app. reflexivity. Qed.
+
+Lemma pendk_app k l1 l2 : pendk k (l1 ++ l2) = pendk k l1 ++ pendk k l2.
+Proof. unfold pendk. now rewrite filter_app, map_app. Qed.
+
+Lemma pendk_in k l t : In t (pendk k l) -> In (k, t) l.
+Proof.
+  unfold pendk. rewrite in_map_iff. intros ([k' t'] & E & H). apply filter_In in H. destruct H as [H F].
+  cbn in *. apply Nat.eqb_eq in F. subst. exact H.
+Qed.
+
+Lemma first_of_key_pendk k l t r : pendk k l = t :: r -> first_of_key k l = Some t.
+Proof.
+  unfold pendk, first_of_key. induction l as [|p l IH]; cbn; [discriminate|].
+  destruct (fst p =? k); cbn; [intros H; inversion H; reflexivity|exact IH].
+Qed.
+
+Lemma remove_task_pendk l k t r :
+  (forall k', In (k', t) l -> k' = k) -> pendk k l = t :: r ->
+  pendk k (remove_task t l) = r /\ forall k', k' <> k -> pendk k' (remove_task t l) = pendk k' l.
+Proof.
+  induction l as [|[a b] l IH]; intros HK HP; [discriminate|].
+  cbn [remove_task snd]. destruct (Nat.eqb_spec b t) as [->|Nb].
+  - assert (a = k) by (apply HK; now left). subst a.
+    unfold pendk in *. cbn [filter fst map snd] in *. rewrite Nat.eqb_refl in HP. cbn in HP. inversion HP. split; [reflexivity|].
+    intros k' N. rewrite (proj2 (Nat.eqb_neq k k')) by auto. reflexivity.
+  - unfold pendk in *. cbn [filter fst map snd] in *. destruct (a =? k) eqn:Ea.
+    + cbn in HP. inversion HP. contradiction.
+    + destruct (IH (fun k' H => HK k' (or_intror H)) HP) as [I1 I2]. split; [exact I1|].
+      intros k' N. destruct (a =? k'); cbn; [f_equal|]; apply I2; auto.
+Qed.
+
+Lemma remove_task_incl t (l : list (nat * nat)) x : In x (remove_task t l) -> In x l.
+Proof.
+  induction l as [|p l IH]; cbn; [tauto|]. destruct (snd p =? t); [now right|].
+  intros [H|H]; [now left|right; auto].
+Qed.
+
+Lemma remove_task_perm t (l : list (nat * nat)) :
+  In t (map snd l) -> Permutation (map snd l) (t :: map snd (remove_task t l)).
+Proof.
+  induction l as [|p l IH]; cbn; [tauto|]. destruct (Nat.eqb_spec (snd p) t) as [->|N].
+  - intros _. apply Permutation_refl.
+  - intros [H|H]; [contradiction|]. cbn. etransitivity; [apply perm_skip, IH, H|apply perm_swap].
+Qed.
+
+Lemma remove_task_nodup A t (l : list (nat * nat)) :
+  NoDup (A ++ map snd l) -> NoDup (A ++ map snd (remove_task t l)).
+Proof.
+  revert A; induction l as [|p l IH]; intros A H; cbn in *; [assumption|].
+  destruct (snd p =? t).
+  - eapply NoDup_remove_1; eauto.
+  - cbn. specialize (IH (A ++ [snd p])). rewrite <- !app_assoc in IH. apply IH. exact H.
+Qed.
+
+Lemma remove_task_neq t (l : list (nat * nat)) k0 t0 :
+  NoDup (map snd l) -> In (k0, t0) (remove_task t l) -> t0 <> t.
+Proof.
+  induction l as [|p l IH]; cbn; [tauto|]. intros ND. inversion ND; subst.
+  destruct (Nat.eqb_spec (snd p) t) as [E|N].
+  - intros H Et. apply H1. rewrite E, <- Et. apply (in_map snd _ _ H).
+  - intros [H|H]; [subst p; exact N|auto].
+Qed.
+
+Lemma nodup_app_r {A} (l1 l2 : list A) : NoDup (l1 ++ l2) -> NoDup l2.
+Proof. induction l1; cbn; [auto|]. intros H. inversion H; auto. Qed.
+
+Lemma pendk_all_nil l : (forall k, pendk k l = []) -> l = [].
+Proof.
+  destruct l as [|[a b] l]; [reflexivity|]. intros H. specialize (H a). unfold pendk in H. cbn in H.
+  rewrite Nat.eqb_refl in H. discriminate.
+Qed.
+
+Record InvC (s : state) : Prop := mkC {
+  c_errs : sc_errs (SC s) = [];
+  c_pend : forall k, pendk k (sc_pend (SC s)) = buf s k;
+  c_tkey : forall k t, In (k, t) (sc_pend (SC s)) -> task_key s t = k;
+  c_nodup : NoDup (map snd (sc_pend (SC s)) ++ map snd (sc_run (SC s)));
+  c_rel : forall t, In t (map snd (sc_pend (SC s)) ++ map snd (sc_run (SC s))) -> relsafe (pcof s t) = true;
+  c_run : forall k t, In (k, t) (sc_run (SC s)) ->
+            exists q Q, nth_error (st_qs s) q = Some Q /\ q_key Q = k /\ q_pc Q = CRun t }.
+
+Lemma C_frame s s' :
+  st_log s' = st_log s -> (forall k, buf s' k = buf s k) -> (forall t, task_key s' t = task_key s t) ->
+  (forall t, relsafe (pcof s t) = true -> relsafe (pcof s' t) = true) ->
+  (forall q Q t, nth_error (st_qs s) q = Some Q -> q_pc Q = CRun t ->
+     exists Q', nth_error (st_qs s') q = Some Q' /\ q_key Q' = q_key Q /\ q_pc Q' = CRun t) ->
+  InvC s -> InvC s'.
+Proof.
+  intros EL EB ET ER EQ [C1 C2 C3 C4 C5 C6]. constructor; unfold SC in *; rewrite EL.
+  - exact C1.
+  - intros k. rewrite EB. apply C2.
+  - intros k t H. rewrite ET. now apply C3.
+  - exact C4.
+  - intros t H. apply ER, C5, H.
+  - intros k t H. destruct (C6 k t H) as (q & Q & Hq & Hk & Hpc).
+    destruct (EQ q Q t Hq Hpc) as (Q' & Hq' & Hk' & Hpc'). exists q, Q'. repeat split; congruence.
+Qed.
+
+Lemma run_upd (qs : list queue) q Q Q' :
+  nth_error qs q = Some Q -> q_key Q' = q_key Q -> (forall t, q_pc Q = CRun t -> q_pc Q' = CRun t) ->
+  forall q0 Q0 t, nth_error qs q0 = Some Q0 -> q_pc Q0 = CRun t ->
+    exists Q0', nth_error (upd qs q Q') q0 = Some Q0' /\ q_key Q0' = q_key Q0 /\ q_pc Q0' = CRun t.
+Proof.
+  intros Hq Hk Hp q0 Q0 t H0 P0. destruct (Nat.eq_dec q0 q) as [->|N].
+  - exists Q'. rewrite (nth_upd_same _ _ _ _ Hq). assert (Q0 = Q) by congruence. subst. auto.
+  - exists Q0. rewrite nth_upd_other by auto. auto.
+Qed.
+
+Lemma run_refl (qs : list queue) :
+  forall q0 Q0 t, nth_error qs q0 = Some Q0 -> q_pc Q0 = CRun t ->
+    exists Q0', nth_error qs q0 = Some Q0' /\ q_key Q0' = q_key Q0 /\ q_pc Q0' = CRun t.
+Proof. intros q0 Q0 t H P. exists Q0. auto. Qed.
+
+(* buf: frames *)
+Lemma buf_same s s' :
+  st_map s' = st_map s -> st_qs s' = st_qs s -> (forall c, chan s' c = chan s c) -> forall k, buf s' k = buf s k.
+Proof. intros EM EQ EC k. unfold buf. rewrite EM, EQ. destruct (st_map s k); [|reflexivity].
+  destruct (nth_error (st_qs s) n); [|reflexivity]. now rewrite EC. Qed.
+
+Lemma buf_upd s s' q Q Q' :
+  nth_error (st_qs s) q = Some Q -> st_map s' = st_map s -> st_qs s' = upd (st_qs s) q Q' ->
+  (forall c, chan s' c = chan s c) ->
+  (if active (q_pc Q') then chan s (q_ch Q') ++ q_over Q' else []) = (if active (q_pc Q) then chan s (q_ch Q) ++ q_over Q else []) ->
+  forall k, buf s' k = buf s k.
+Proof.
+  intros Hq EM EQ EC E k. unfold buf. rewrite EM, EQ. destruct (st_map s k) as [q0|]; [|reflexivity].
+  destruct (Nat.eq_dec q0 q) as [->|N].
+  - rewrite (nth_upd_same _ _ _ _ Hq), Hq, EC. exact E.
+  - rewrite nth_upd_other by auto. destruct (nth_error (st_qs s) q0); [|reflexivity]. now rewrite EC.
+Qed.
+
+Lemma buf_other s s' q Q Q' k0 :
+  InvA s -> nth_error (st_qs s) q = Some Q -> live (q_pc Q) = true ->
+  st_map s' = st_map s -> st_qs s' = upd (st_qs s) q Q' ->
+  (forall c, c <> q_ch Q -> chan s' c = chan s c) -> k0 <> q_key Q -> buf s' k0 = buf s k0.
+Proof.
+  intros I Hq L EM EQ EC N. unfold buf. rewrite EM, EQ. destruct (st_map s k0) as [q0|] eqn:E0; [|reflexivity].
+  destruct (a_map s I _ _ E0) as (Q0 & H0 & K0).
+  assert (q0 <> q) by (intros ->; assert (Q0 = Q) by congruence; subst; congruence).
+  rewrite nth_upd_other by auto. rewrite H0. destruct (active (q_pc Q0)) eqn:A0; [|reflexivity].
+  rewrite EC; [reflexivity|]. intros E. apply H. apply (live_distinct s q0 Q0 q Q I H0 Hq (active_live _ A0) L E).
+Qed.
+
+Lemma buf_self s s' q Q Q' :
+  InvA s -> nth_error (st_qs s) q = Some Q -> active (q_pc Q) = true ->
+  st_map s' = st_map s -> st_qs s' = upd (st_qs s) q Q' ->
+  buf s (q_key Q) = chan s (q_ch Q) ++ q_over Q
+  /\ buf s' (q_key Q) = if active (q_pc Q') then chan s' (q_ch Q') ++ q_over Q' else [].
+Proof.
+  intros I Hq A EM EQ. unfold buf. rewrite EM, EQ, (a_act s I q Q Hq A), Hq, A, (nth_upd_same _ _ _ _ Hq). auto.
+Qed.
+
+Lemma task_key_ppc s s1 i k pc pc' t :
+  st_prods s1 = st_prods s -> nth_error (st_prods s) i = Some (k, pc) -> task_key (set_ppc s1 i k pc') t = task_key s t.
+Proof.
+  intros E Hp. unfold task_key, set_ppc, set_prods; cbn [st_prods]. rewrite E, nth_error_upd.
+  destruct (Nat.eqb_spec t i) as [->|N]; [now rewrite Hp|reflexivity].
+Qed.
+
+Lemma relsafe_ppc s s1 i k pc pc' t :
+  st_prods s1 = st_prods s -> nth_error (st_prods s) i = Some (k, pc) -> (relsafe pc = true -> relsafe pc' = true) ->
+  relsafe (pcof s t) = true -> relsafe (pcof (set_ppc s1 i k pc') t) = true.
+Proof.
+  intros E Hp R. unfold pcof, set_ppc, set_prods; cbn [st_prods]. rewrite E, nth_error_upd.
+  destruct (Nat.eqb_spec t i) as [->|N]; [rewrite Hp; exact R|auto].
+Qed.
+
+(* a convoy starts the head task of its flow *)
+Lemma C_start s s' q Q Q' t rest :
+  InvA s -> InvC s ->
+  nth_error (st_qs s) q = Some Q -> active (q_pc Q) = true -> (forall t', q_pc Q <> CRun t') ->
+  st_log s' = st_log s ++ [EStart (q_key Q) q (task_key s t) t] ->
+  st_qs s' = upd (st_qs s) q Q' -> q_key Q' = q_key Q -> q_ch Q' = q_ch Q -> q_pc Q' = CRun t ->
+  st_map s' = st_map s -> st_prods s' = st_prods s ->
+  chan s (q_ch Q) ++ q_over Q = t :: rest ->
+  chan s' (q_ch Q) ++ q_over Q' = rest ->
+  (forall c, c <> q_ch Q -> chan s' c = chan s c) ->
+  InvC s'.
+Proof.
+  intros I C Hq Ha Hnr EL EQ Hk Hc Hpc EM EP Hbuf Hbuf' EC.
+  destruct (buf_self s s' q Q Q' I Hq Ha EM EQ) as [Bs Bs'].
+  assert (HP : pendk (q_key Q) (sc_pend (SC s)) = t :: rest) by (rewrite (c_pend s C), Bs; exact Hbuf).
+  assert (Hin : In (q_key Q, t) (sc_pend (SC s))) by (apply pendk_in; rewrite HP; now left).
+  assert (Htk : task_key s t = q_key Q) by (apply (c_tkey s C _ _ Hin)).
+  assert (HK : forall k', In (k', t) (sc_pend (SC s)) -> k' = q_key Q).
+  { intros k' H. rewrite <- (c_tkey s C _ _ H). exact Htk. }
+  destruct (remove_task_pendk _ _ t rest HK HP) as [R1 R2].
+  assert (Hnorun : existsb (fun p => fst p =? q_key Q) (sc_run (SC s)) = false).
+  { destruct (existsb _ _) eqn:E; [exfalso|reflexivity]. apply existsb_exists in E.
+    destruct E as ([k' t'] & Hin' & Ek). cbn in Ek. apply Nat.eqb_eq in Ek. subst k'.
+    destruct (c_run s C _ _ Hin') as (q' & Q'' & Hq' & Hk' & Hpc').
+    assert (A' : active (q_pc Q'') = true) by (rewrite Hpc'; reflexivity).
+    pose proof (a_act s I q' Q'' Hq' A') as M'. pose proof (a_act s I q Q Hq Ha) as M. rewrite Hk' in M'.
+    assert (q' = q) by congruence. subst. assert (Q'' = Q) by congruence. subst. apply (Hnr _ Hpc'). }
+  assert (ESC : SC s' = scan_step (SC s) (EStart (q_key Q) q (q_key Q) t)).
+  { unfold SC. rewrite EL, scan_log_snoc, Htk. reflexivity. }
+  assert (PM : Permutation (map snd (sc_pend (SC s)) ++ map snd (sc_run (SC s)))
+                           (map snd (remove_task t (sc_pend (SC s))) ++ t :: map snd (sc_run (SC s)))).
+  { etransitivity; [apply Permutation_app_tail, (remove_task_perm t)|cbn; apply Permutation_middle].
+    apply (in_map snd _ _ Hin). }
+  constructor; rewrite ESC; cbn [scan_step sc_errs sc_pend sc_run].
+  - rewrite (c_errs s C), Nat.eqb_refl, (first_of_key_pendk _ _ _ _ HP), Nat.eqb_refl, Hnorun. reflexivity.
+  - intros k0. destruct (Nat.eq_dec k0 (q_key Q)) as [->|N].
+    + rewrite R1, Bs', Hpc. cbn [active]. rewrite Hc. symmetry. exact Hbuf'.
+    + rewrite (R2 k0 N), (c_pend s C). symmetry.
+      apply (buf_other s s' q Q Q' k0 I Hq (active_live _ Ha) EM EQ EC N).
+  - intros k0 t0 H. apply remove_task_incl in H. unfold task_key. rewrite EP. apply (c_tkey s C _ _ H).
+  - cbn [map snd]. eapply Permutation_NoDup; [exact PM|apply (c_nodup s C)].
+  - cbn [map snd]. intros t0 H. unfold pcof. rewrite EP. apply (c_rel s C).
+    eapply Permutation_in; [apply Permutation_sym, PM|exact H].
+  - intros k0 t0 [H|H].
+    + inversion H; subst. exists q, Q'. rewrite EQ, (nth_upd_same _ _ _ _ Hq). auto.
+    + destruct (c_run s C _ _ H) as (q' & Q'' & Hq' & Hk' & Hpc').
+      assert (q' <> q) by (intros ->; assert (Q'' = Q) by congruence; subst; apply (Hnr _ Hpc')).
+      exists q', Q''. rewrite EQ, nth_upd_other by auto. auto.
+Qed.
+
+Lemma C_end s q Q t :
+  InvA s -> InvC s -> nth_error (st_qs s) q = Some Q -> q_pc Q = CRun t ->
+  InvC (add_log (set_q s q (q_set_pc Q CTop)) (EEnd q t)).
+Proof.
+  intros I C Hq Hpc.
+  assert (ESC : SC (add_log (set_q s q (q_set_pc Q CTop)) (EEnd q t)) = scan_step (SC s) (EEnd q t)).
+  { unfold SC. simp_st. now rewrite scan_log_snoc. }
+  assert (NR : NoDup (map snd (sc_run (SC s)))) by (eapply nodup_app_r; apply (c_nodup s C)).
+  constructor; rewrite ESC; cbn [scan_step sc_errs sc_pend sc_run].
+  - apply (c_errs s C).
+  - intros k. rewrite (c_pend s C). symmetry.
+    apply (buf_upd s _ q Q (q_set_pc Q CTop) Hq); [reflexivity|reflexivity|intros; reflexivity|].
+    simp_q. rewrite Hpc. reflexivity.
+  - intros k t0 H. apply (c_tkey s C _ _ H).
+  - apply remove_task_nodup, (c_nodup s C).
+  - intros t0 H. change (relsafe (pcof s t0) = true). apply (c_rel s C).
+    apply in_app_or in H. apply in_or_app. destruct H as [H|H]; [now left|right].
+    apply in_map_iff in H. destruct H as (p & E & H). apply in_map_iff. exists p. split; [assumption|].
+    eapply remove_task_incl; eauto.
+  - intros k0 t0 H. pose proof (remove_task_neq _ _ _ _ NR H) as N. apply remove_task_incl in H.
+    destruct (c_run s C _ _ H) as (q' & Q'' & Hq' & Hk' & Hpc').
+    assert (q' <> q) by (intros ->; assert (Q'' = Q) by congruence; subst; congruence).
+    exists q', Q''. simp_st. rewrite nth_upd_other by auto. auto.
+Qed.
+
+Lemma C_accept s s' q Q Q' i k :
+  InvA s -> InvC s -> nth_error (st_qs s) q = Some Q -> nth_error (st_prods s) i = Some (k, PEnq q) ->
+  st_log s' = st_log s ++ [EAccept k i] -> st_qs s' = upd (st_qs s) q Q' ->
+  q_key Q' = q_key Q -> q_ch Q' = q_ch Q -> q_pc Q' = q_pc Q ->
+  st_map s' = st_map s -> st_prods s' = upd (st_prods s) i (k, PRel q) ->
+  chan s' (q_ch Q) ++ q_over Q' = (chan s (q_ch Q) ++ q_over Q) ++ [i] ->
+  (forall c, c <> q_ch Q -> chan s' c = chan s c) ->
+  InvC s'.
+Proof.
+  intros I C Hq Hp EL EQ Hk Hc Hpc EM EP Hbuf EC.
+  assert (Ha : active (q_pc Q) = true).
+  { apply (holder_active s q Q i k (PEnq q) I Hq Hp). unfold holds; cbn [snd]. apply Nat.eqb_refl. }
+  assert (Kq : q_key Q = k).
+  { pose proof (a_prod s I i k _ Hp) as O. cbn in O. destruct O as (Q0 & H0 & K0). congruence. }
+  destruct (buf_self s s' q Q Q' I Hq Ha EM EQ) as [Bs Bs'].
+  assert (ESC : SC s' = scan_step (SC s) (EAccept k i)).
+  { unfold SC. now rewrite EL, scan_log_snoc. }
+  assert (Hni : ~ In i (map snd (sc_pend (SC s)) ++ map snd (sc_run (SC s)))).
+  { intros H. pose proof (c_rel s C i H) as R. unfold pcof in R. rewrite Hp in R. discriminate. }
+  constructor; rewrite ESC; cbn [scan_step sc_errs sc_pend sc_run].
+  - apply (c_errs s C).
+  - intros k0. rewrite pendk_app. unfold pendk at 2. cbn [filter fst]. destruct (Nat.eq_dec k0 k) as [->|N].
+    + rewrite Nat.eqb_refl. cbn [map snd]. rewrite (c_pend s C), <- Kq, Bs, Bs', Hpc, Ha, Hc. symmetry. exact Hbuf.
+    + rewrite (proj2 (Nat.eqb_neq k k0)) by auto. cbn [map]. rewrite app_nil_r, (c_pend s C). symmetry.
+      apply (buf_other s s' q Q Q' k0 I Hq (active_live _ Ha) EM EQ EC). congruence.
+  - intros k0 t0 H. unfold task_key. rewrite EP. apply in_app_or in H. destruct H as [H|[H|[]]].
+    + pose proof (c_tkey s C _ _ H) as T. unfold task_key in T. rewrite nth_error_upd.
+      destruct (Nat.eqb_spec t0 i) as [->|N]; [rewrite Hp in *; exact T|exact T].
+    + inversion H; subst. now rewrite (nth_upd_same _ _ _ _ Hp).
+  - rewrite map_app. cbn [map snd]. eapply Permutation_NoDup; [|constructor; [exact Hni|apply (c_nodup s C)]].
+    rewrite <- app_assoc. apply Permutation_middle.
+  - rewrite map_app. cbn [map snd]. intros t0 H. unfold pcof. rewrite EP.
+    destruct (Nat.eq_dec t0 i) as [->|N]; [now rewrite (nth_upd_same _ _ _ _ Hp)|].
+    rewrite nth_upd_other by auto. apply (c_rel s C).
+    rewrite <- app_assoc in H. apply in_app_or in H. apply in_or_app. destruct H as [H|[H|H]]; [now left|congruence|now right].
+  - intros k0 t0 H. destruct (c_run s C _ _ H) as (q' & Q'' & Hq' & Hk' & Hpc').
+    destruct (run_upd _ q Q Q' Hq Hk (fun t E => eq_trans Hpc E) q' Q'' t0 Hq' Hpc') as (Q3 & H3 & K3 & P3).
+    exists q', Q3. rewrite EQ. repeat split; congruence.
+Qed.
+
+Ltac c_frame_q s C q Q Hq Hpc :=
+  apply (C_frame s);
+  [reflexivity
+  |eapply (buf_upd s _ q Q _ Hq); [reflexivity|simp_st; reflexivity|intros; reflexivity|simp_q; rewrite ?Hpc; try reflexivity]
+  |intros; reflexivity
+  |intros tt HH; exact HH
+  |simp_st; eapply (run_upd _ q Q _ Hq); [reflexivity|intros tt; simp_q; rewrite ?Hpc; try discriminate; auto]
+  |exact C].
+
+Lemma C_step_conv s q c :
+  InvA s -> InvB s -> InvC s -> claim_hit s (LConv q c) = false -> pop_hit s (LConv q c) = false ->
+  InvC (step_conv s q c).
+Proof.
+  intros I B C CH PH. unfold step_conv. cbn [claim_hit pop_hit] in CH, PH.
+  destruct (nth_error (st_qs s) q) as [Q|] eqn:Hq; [|exact C].
+  assert (Hchanpop : forall t r, active (q_pc Q) = true -> (forall t', q_pc Q <> CRun t') ->
+            chan s (q_ch Q) = t :: r -> InvC (start_task (set_chan s (q_ch Q) r) q Q t)).
+  { intros t r Ha Hnr Hc.
+    destruct (own_active s q Q I Hq (active_live _ Ha)) as (Hlt & _).
+    apply (C_start s _ q Q (q_set_pc Q (CRun t)) t (r ++ q_over Q) I C Hq Ha Hnr); try reflexivity.
+    - rewrite Hc. reflexivity.
+    - simp_q. change (chan (set_chan s (q_ch Q) r) (q_ch Q) ++ q_over Q = r ++ q_over Q).
+      now rewrite (chan_set_chan_same s (q_ch Q) r Hlt).
+    - intros c0 N. apply (chan_set_chan_other s (q_ch Q) r c0 N). }
+  destruct (q_pc Q) eqn:Hpc; try exact C.
+  - (* CTop *)
+    destruct (chan s (q_ch Q)) as [|t r] eqn:Hc; [c_frame_q s C q Q Hq Hpc|].
+    apply Hchanpop; [reflexivity|discriminate|reflexivity].
+  - (* CPopOver *)
+    destruct (if pop_overflow_rechecks_channel then chan s (q_ch Q) else []) as [|t0 r0] eqn:Ef.
+    + destruct (q_over Q) as [|t r] eqn:Ho.
+      * c_frame_q s C q Q Hq Hpc. rewrite Ho. reflexivity.
+      * assert (Ech : chan s (q_ch Q) = []).
+        { destruct pop_overflow_rechecks_channel; [exact Ef|]. cbn in PH.
+          destruct (chan s (q_ch Q)); [reflexivity|discriminate]. }
+        eapply (C_start s _ q Q _ t r I C Hq); try reflexivity.
+        -- rewrite Hpc. reflexivity.
+        -- rewrite Hpc. discriminate.
+        -- rewrite Ech, Ho. reflexivity.
+        -- simp_q. change (chan s (q_ch Q) ++ r = r). now rewrite Ech.
+    + assert (Ech : chan s (q_ch Q) = t0 :: r0) by (destruct pop_overflow_rechecks_channel; [exact Ef|discriminate]).
+      apply Hchanpop; [reflexivity|discriminate|exact Ech].
+  - (* CRun *) apply (C_end s q Q t I C Hq Hpc).
+  - (* CWait *)
+    destruct c; try exact C.
+    + destruct (chan s (q_ch Q)) as [|t r] eqn:Hc; [exact C|].
+      apply Hchanpop; [reflexivity|discriminate|reflexivity].
+    + destruct (_ || _ || _); [exact C|c_frame_q s C q Q Hq Hpc].
+    + c_frame_q s C q Q Hq Hpc.
+  - (* CChecked *)
+    destruct (q_refs Q =? 0)%Z eqn:Er; [|c_frame_q s C q Q Hq Hpc].
+    cbn [andb] in CH. apply orb_false_elim in CH. destruct CH as [C1 C2].
+    assert (E1 : chan s (q_ch Q) = []) by (destruct (chan s (q_ch Q)); [reflexivity|discriminate]).
+    assert (E2 : q_over Q = []) by (destruct (q_over Q); [reflexivity|discriminate]).
+    c_frame_q s C q Q Hq Hpc. cbn [active]. now rewrite E1, E2.
+  - (* CClaimed *)
+    destruct (opt_is (st_map s (q_key Q)) q) eqn:Eo; [|c_frame_q s C q Q Hq Hpc].
+    apply opt_is_true in Eo.
+    apply (C_frame s); [reflexivity| |intros; reflexivity|intros tt HH; exact HH| |exact C].
+    + intros k0. unfold buf. simp_st. unfold map_set. destruct (Nat.eqb_spec k0 (q_key Q)) as [->|N].
+      * rewrite Eo, Hq, Hpc. reflexivity.
+      * destruct (st_map s k0) as [q0|] eqn:E0; [|reflexivity].
+        destruct (a_map s I _ _ E0) as (Q0 & H0 & K0).
+        assert (q0 <> q) by (intros ->; assert (Q0 = Q) by congruence; subst; congruence).
+        rewrite nth_upd_other by auto. reflexivity.
+    + simp_st. eapply (run_upd _ q Q _ Hq); [reflexivity|intros tt; rewrite Hpc; discriminate].
+  - (* CDeleted *) c_frame_q s C q Q Hq Hpc.
+  - (* CDelFailed *)
+    assert (G : st_map s (q_key Q) <> Some q) by (apply (a_gone s I q Q Hq); now rewrite Hpc).
+    destruct (opt_is (st_map s (q_key Q)) q) eqn:Eo; [apply opt_is_true in Eo; contradiction|].
+    c_frame_q s C q Q Hq Hpc.
+Qed.
+
+Lemma creator_ns s q Q i k pc :
+  InvA s -> nth_error (st_qs s) q = Some Q -> nth_error (st_prods s) i = Some (k, pc) ->
+  creator q (k, pc) = true -> q_pc Q = CNotStarted.
+Proof.
+  intros I Hq Hp Hc. pose proof (a_creat s I q Q Hq) as C. pose proof (count_ge1 (creator q) _ i _ Hp Hc) as G.
+  destruct (q_pc Q); cbn in C; try lia. reflexivity.
+Qed.
+
+Ltac c_frame_p s C Hp BUF RUN :=
+  apply (C_frame s);
+  [reflexivity
+  |BUF
+  |intros tt; eapply task_key_ppc; [reflexivity|exact Hp]
+  |intros tt; eapply relsafe_ppc; [reflexivity|exact Hp|intros HH; first [discriminate HH|reflexivity]]
+  |RUN
+  |exact C].
+Ltac buf_same_t := apply buf_same; [reflexivity|reflexivity|intros; reflexivity].
+Ltac run_same_t := simp_st; apply run_refl.
+Ltac buf_refs_t s q Q Hq := eapply (buf_upd s _ q Q _ Hq); [reflexivity|simp_st; reflexivity|intros; reflexivity|reflexivity].
+Ltac run_refs_t q Q Hq := simp_st; eapply (run_upd _ q Q _ Hq); [reflexivity|intros tt HH; exact HH].
+
+Lemma C_step_prod cap s i g : InvA s -> InvB s -> InvC s -> InvC (step_prod cap s i g).
+Proof.
+  intros I B C. unfold step_prod.
+  destruct (nth_error (st_prods s) i) as [[k pc]|] eqn:Hp; [|exact C].
+  pose proof (a_prod s I i k pc Hp) as Ok.
+  destruct pc; cbn [pc_ok] in Ok.
+  - destruct (st_map s k); c_frame_p s C Hp buf_same_t run_same_t.
+  - destruct (nth_error (st_qs s) q) as [Q|] eqn:Hq; [|exact C].
+    destruct (q_refs Q <? 0)%Z; [c_frame_p s C Hp buf_same_t run_same_t|].
+    c_frame_p s C Hp ltac:(buf_refs_t s q Q Hq) ltac:(run_refs_t q Q Hq).
+  - destruct g as [c|].
+    + destruct (mem c (st_pool s)); [|exact C]. c_frame_p s C Hp buf_same_t run_same_t.
+    + c_frame_p s C Hp ltac:(apply buf_same; [reflexivity|reflexivity|intros c0; apply chan_new]) run_same_t.
+  - destruct (st_map s k) as [q|] eqn:Em; [c_frame_p s C Hp buf_same_t run_same_t|].
+    pose proof (have_chan_empty s i k c I B Hp) as Ec.
+    c_frame_p s C Hp idtac idtac.
+    + intros k0. unfold buf. simp_st. unfold map_set. destruct (Nat.eqb_spec k0 k) as [->|N].
+      * rewrite nth_error_snoc_new, Em. cbn [q_pc active q_ch q_over]. rewrite app_nil_r. exact Ec.
+      * destruct (st_map s k0) as [q0|] eqn:E0; [|reflexivity].
+        destruct (a_map s I _ _ E0) as (Q0 & H0 & K0). rewrite (nth_error_app_l _ _ _ _ H0), H0. reflexivity.
+    + simp_st. intros q0 Q0 t H0 P0. exists Q0. split; [now apply nth_error_app_l|auto].
+  - destruct (nth_error (st_qs s) q) as [Q|] eqn:Hq; [|exact C].
+    destruct (q_refs Q <? 0)%Z; [c_frame_p s C Hp buf_same_t run_same_t|].
+    c_frame_p s C Hp ltac:(buf_refs_t s q Q Hq) ltac:(run_refs_t q Q Hq).
+  - destruct Ok as (Q & Hq & Hk & Hi).
+    destruct (opt_is (st_map s k) q) eqn:Eo; [|c_frame_p s C Hp buf_same_t run_same_t].
+    apply opt_is_true in Eo. c_frame_p s C Hp idtac run_same_t.
+    intros k0. unfold buf. simp_st. unfold map_set. destruct (Nat.eqb_spec k0 k) as [->|N]; [|reflexivity].
+    rewrite Eo, Hq, Hi. reflexivity.
+  - destruct (nth_error (st_qs s) q) as [Q|] eqn:Hq; [|exact C].
+    c_frame_p s C Hp ltac:(buf_refs_t s q Q Hq) ltac:(run_refs_t q Q Hq).
+  - destruct (nth_error (st_qs s) q) as [Q|] eqn:Hq; [|exact C].
+    assert (Hns : q_pc Q = CNotStarted).
+    { apply (creator_ns s q Q i k (PSpawn q) I Hq Hp). unfold creator; cbn [snd]. apply Nat.eqb_refl. }
+    c_frame_p s C Hp idtac idtac.
+    + eapply (buf_upd s _ q Q _ Hq); [reflexivity|simp_st; reflexivity|intros; reflexivity|]. simp_q. now rewrite Hns.
+    + simp_st. eapply (run_upd _ q Q _ Hq); [reflexivity|]. intros tt. rewrite Hns. discriminate.
+  - (* PEnq *)
+    destruct (nth_error (st_qs s) q) as [Q|] eqn:Hq; [|exact C].
+    assert (Hov : InvC (set_ppc (add_log (set_q s q (q_set_over Q (q_over Q ++ [i]) true)) (EAccept k i)) i k (PRel q))).
+    { apply (C_accept s _ q Q (q_set_over Q (q_over Q ++ [i]) true) i k I C Hq Hp); try reflexivity.
+      simp_q. change (chan s (q_ch Q) ++ q_over Q ++ [i] = (chan s (q_ch Q) ++ q_over Q) ++ [i]). apply app_assoc. }
+    destruct (q_mode Q) eqn:Em; [exact Hov|]. destruct (length (chan s (q_ch Q)) <? cap); [|exact Hov].
+    assert (Ha : active (q_pc Q) = true).
+    { apply (holder_active s q Q i k (PEnq q) I Hq Hp). unfold holds; cbn [snd]. apply Nat.eqb_refl. }
+    destruct (own_active s q Q I Hq (active_live _ Ha)) as (Hlt & _).
+    apply (C_accept s _ q Q Q i k I C Hq Hp); try reflexivity.
+    + simp_st. symmetry. now apply upd_same.
+    + change (chan (set_chan s (q_ch Q) (chan s (q_ch Q) ++ [i])) (q_ch Q) ++ q_over Q = (chan s (q_ch Q) ++ q_over Q) ++ [i]).
+      rewrite (chan_set_chan_same s _ _ Hlt), (b_mode s B q Q Hq Em), !app_nil_r. reflexivity.
+    + intros c0 N. apply (chan_set_chan_other s (q_ch Q) _ c0 N).
+  - destruct (nth_error (st_qs s) q) as [Q|] eqn:Hq; [|exact C].
+    c_frame_p s C Hp ltac:(buf_refs_t s q Q Hq) ltac:(run_refs_t q Q Hq).
+  - exact C.
+Qed.
+
+Lemma C_init keys : InvC (init keys).
+Proof.
+  constructor; cbn; try reflexivity; try constructor; try (intros; contradiction).
+Qed.
+
+(* ------------------------------------------------------------------------------------------ *)
+(* the invariant along race-free schedules, and the theorem                                    *)
+(* ------------------------------------------------------------------------------------------ *)
+Record Inv (s : state) : Prop := mkI { i_a : InvA s; i_b : InvB s; i_c : InvC s }.
+
+Lemma Inv_init keys : Inv (init keys).
+Proof. constructor; [apply A_init|apply B_init|apply C_init]. Qed.
+
+Lemma Inv_step cap s l : Inv s -> claim_hit s l = false -> pop_hit s l = false -> Inv (step cap s l).
+Proof.
+  intros [IA IB IC] CH PH. destruct l as [i g|q c]; cbn [step].
+  - constructor; [apply A_step_prod|apply B_step_prod|apply C_step_prod]; assumption.
+  - constructor; [apply A_step_conv|apply B_step_conv|apply C_step_conv]; assumption.
+Qed.
+
+Lemma Inv_run_from cap sched : forall s, Inv s -> race_free_from cap s sched = true -> Inv (fold_left (step cap) sched s).
+Proof.
+  induction sched as [|l r IH]; intros s I RF; cbn in *; [exact I|].
+  apply andb_true_iff in RF. destruct RF as [RF R2]. apply andb_true_iff in RF. destruct RF as [R0 R1].
+  apply negb_true_iff in R0. apply negb_true_iff in R1.
+  apply IH; [apply Inv_step; assumption|exact R2].
+Qed.
+
+Lemma C13_in_order_invariant cap keys sched : race_free cap keys sched = true -> Inv (run cap keys sched).
+Proof. intros RF. apply Inv_run_from; [apply Inv_init|exact RF]. Qed.
+
+Lemma C13_in_order_partial_proof :
+  forall cap keys sched,
+    race_free cap keys sched = true ->
+    let s := run cap keys sched in
+    spec_safe (st_log s) = true /\ (quiescent s = true -> spec_complete (st_log s) = true).
+Proof.
+  intros cap keys sched RF s. destruct (C13_in_order_invariant cap keys sched RF) as [IA IB IC]. fold s in IA, IB, IC.
+  split.
+  - unfold spec_safe. pose proof (c_errs s IC) as E. unfold SC in E. now rewrite E.
+  - intros Hquiet. unfold quiescent in Hquiet. apply andb_true_iff in Hquiet. destruct Hquiet as [_ HQ].
+    rewrite forallb_forall in HQ.
+    assert (Hex : forall q Q, nth_error (st_qs s) q = Some Q -> q_pc Q = CExit).
+    { intros q Q H. apply nth_error_In in H. specialize (HQ Q H). unfold conv_idle in HQ.
+      destruct (q_pc Q); try discriminate. reflexivity. }
+    assert (P : sc_pend (scan_log (st_log s)) = []).
+    { apply pendk_all_nil. intros k. pose proof (c_pend s IC k) as E. unfold SC in E. rewrite E.
+      unfold buf. destruct (st_map s k) as [q|]; [|reflexivity].
+      destruct (nth_error (st_qs s) q) as [Q|] eqn:Hq; [|reflexivity]. now rewrite (Hex q Q Hq). }
+    assert (R : sc_run (scan_log (st_log s)) = []).
+    { destruct (sc_run (scan_log (st_log s))) as [|[k t] r] eqn:E; [reflexivity|exfalso].
+      destruct (c_run s IC k t) as (q & Q & Hq & _ & Hpc); [unfold SC; rewrite E; now left|].
+      rewrite (Hex q Q Hq) in Hpc. discriminate. }
+    unfold spec_complete. now rewrite P, R.
+Qed.
+
+Print Assumptions C13_in_order_partial_proof.
